@@ -70,7 +70,7 @@ Record pkg := mkPkg {
 (** * Rows of a generated file *)
 
 Inductive lit :=
-| LString (x : str)          (* token.STRING, after unquoting *)
+| LString (quoted : str)     (* token.STRING: the quoted literal handed to MakeFromLiteral *)
 | LInt (digits : str)        (* token.INT, the digits as printed *)
 | LFloat (num den : Z)       (* token.FLOAT, the value of the printed literal, lowest terms *)
 | LFail.
@@ -118,7 +118,7 @@ Definition y_is_restricted (p : pkg) (name : str) : bool := mem (pk_name p ++ na
 (** fixConst *)
 Definition y_const (q : str) (v : cval) : yexpr :=
   match v with
-  | CString x => YLit (LString x)
+  | CString x => YLit (LString (print_str x))
   | CInt z => YLit (LInt (print_Z z))
   | CFloat a b => YLit (match fix_float a b with
                         | Some r => let r' := norm r in LFloat (fst r') (snd r')
@@ -200,17 +200,21 @@ Definition y_wraps (p : pkg) : list (str * ywrap) :=
 Definition y_wrapped (p : pkg) : list iface :=
   flat_map (fun d => match y_classify p d with CTyp _ (Some (_, it)) => [it] | _ => [] end) (pk_decls p).
 
+(** the rows are computed once and shared by the imports and by the compile verdict *)
+Record yrows := mkRows { r_vals : list (str * yexpr); r_typs : list (str * str); r_wrapped : list iface }.
+Definition y_rows (p : pkg) : yrows := mkRows (y_vals p) (y_typs p) (y_wrapped p).
+
 Definition is_lit (e : yexpr) : bool := match e with YLit _ => true | _ => false end.
 
-Definition y_has_lit (p : pkg) : bool := existsb (fun kv => is_lit (snd kv)) (y_vals p).
+Definition y_has_lit_r (p : pkg) (R : yrows) : bool := existsb (fun kv => is_lit (snd kv)) (r_vals R).
 
 (** packages marked by [qualify]: mentioned in an emitted wrapper method, path different from importPath *)
-Definition y_qualified (p : pkg) : list (str * str) :=
+Definition y_qualified_r (p : pkg) (R : yrows) : list (str * str) :=
   flat_map (fun it => flat_map (fun m => filter (fun pn => negb (str_eqb (fst pn) (pk_ipath p))) (m_pkgs m))
                                (filter m_exported (i_methods it)))
-           (y_wrapped p).
+           (r_wrapped R).
 
-Definition y_own_import (p : pkg) : bool := negb (is_nil (y_vals p)) || negb (is_nil (y_typs p)).
+Definition y_own_import_r (p : pkg) (R : yrows) : bool := negb (is_nil (r_vals R)) || negb (is_nil (r_typs R)).
 
 Definition reflect_s : str := s "reflect".
 Definition constant_s : str := s "constant".
@@ -219,13 +223,13 @@ Definition go_constant_s : str := s "go/constant".
 Definition go_token_s : str := s "go/token".
 
 (** (path, name) of the imports of the generated file *)
-Definition y_import_pairs (p : pkg) : list (str * str) :=
-  (if y_has_lit p then [(go_constant_s, constant_s); (go_token_s, token_s)] else [])
-  ++ (if y_own_import p then [(pk_ipath p, pk_name p)] else [])
+Definition y_import_pairs_r (p : pkg) (R : yrows) : list (str * str) :=
+  (if y_has_lit_r p R then [(go_constant_s, constant_s); (go_token_s, token_s)] else [])
+  ++ (if y_own_import_r p R then [(pk_ipath p, pk_name p)] else [])
   ++ [(reflect_s, reflect_s)]
-  ++ y_qualified p.
+  ++ y_qualified_r p R.
 
-Definition y_imports (p : pkg) : list str := map fst (y_import_pairs p).
+Definition y_imports_r (p : pkg) (R : yrows) : list str := map fst (y_import_pairs_r p R).
 
 (** genBuildTags and the tail of genContent (no Extractor.Tag; GOOS is neither android nor illumos) *)
 Definition in_stdlib (path : str) : bool := negb (existsb (Ascii.eqb "."%char) path).
@@ -255,15 +259,15 @@ Fixpoint import_clash (l : list (str * str)) : bool :=
   end.
 
 (** the import of the package itself is used by a binding, a type or a wrapper signature *)
-Definition y_own_used (p : pkg) : bool :=
+Definition y_own_used_r (p : pkg) (R : yrows) : bool :=
   existsb (fun kv => match snd kv with
                      | YIdent q | YAddr q => str_eqb q (pk_name p ++ dot_s ++ fst kv)
                      | YLit _ => false
-                     end) (y_vals p)
-  || existsb (fun kv => str_eqb (snd kv) (pk_name p ++ dot_s ++ fst kv)) (y_typs p)
+                     end) (r_vals R)
+  || existsb (fun kv => str_eqb (snd kv) (pk_name p ++ dot_s ++ fst kv)) (r_typs R)
   || existsb (fun it => existsb (fun m => existsb (fun pn => str_eqb (fst pn) (pk_ipath p)) (m_pkgs m))
                                 (filter m_exported (i_methods it)))
-             (y_wrapped p).
+             (r_wrapped R).
 
 Definition blank_s : str := s "_".
 Definition recv_s : str := s "W".
@@ -282,23 +286,44 @@ Definition iface_compiles (it : iface) : bool :=
   i_methodset it && forallb (meth_compiles (map m_name ms)) ms.
 
 (** some binding refers to a locally provided replacement (an identifier without package qualifier) *)
-Definition y_uses_restricted (p : pkg) : bool :=
+Definition y_uses_restricted_r (p : pkg) (R : yrows) : bool :=
   existsb (fun kv => match snd kv with
                      | YIdent q | YAddr q => str_eqb q (pk_name p ++ fst kv)
                      | YLit _ => false
-                     end) (y_vals p)
-  || existsb (fun kv => str_eqb (snd kv) (pk_name p ++ fst kv)) (y_typs p).
+                     end) (r_vals R)
+  || existsb (fun kv => str_eqb (snd kv) (pk_name p ++ fst kv)) (r_typs R).
 
 Definition provided_locally (ipath : str) : bool := str_eqb ipath (s "os") || str_eqb ipath (s "log").
 
-Definition y_compiles (p : pkg) : bool :=
-  negb (import_clash (y_import_pairs p))
-  && (negb (y_own_import p) || y_own_used p)
-  && forallb iface_compiles (y_wrapped p)
-  && (negb (y_uses_restricted p) || provided_locally (pk_ipath p)).
+Definition y_compiles_r (p : pkg) (R : yrows) : bool :=
+  negb (import_clash (y_import_pairs_r p R))
+  && (negb (y_own_import_r p R) || y_own_used_r p R)
+  && forallb iface_compiles (r_wrapped R)
+  && (negb (y_uses_restricted_r p R) || provided_locally (pk_ipath p)).
+
+Definition y_imports (p : pkg) : list str := y_imports_r p (y_rows p).
+Definition y_compiles (p : pkg) : bool := y_compiles_r p (y_rows p).
 
 Definition y_emit (p : pkg) : yout :=
-  mkYO (y_tags p) (y_symkey p) (y_imports p) (y_vals p) (y_typs p) (y_wraps p) (y_compiles p).
+  let R := y_rows p in
+  mkYO (y_tags p) (y_symkey p) (y_imports_r p R) (r_vals R) (r_typs R) (y_wraps p) (y_compiles_r p R).
+
+(** the same output with every declaration classified once (what the correspondence evaluates;
+    equal to [y_emit], Proofs.y_emit_fast_eq) *)
+Definition y_contribs (p : pkg) : list (decl * contrib) := map (fun d => (d, y_classify p d)) (pk_decls p).
+Definition vals_of (cs : list (decl * contrib)) : list (str * yexpr) :=
+  flat_map (fun dc => match snd dc with CVal e => [(d_name (fst dc), e)] | _ => [] end) cs.
+Definition typs_of (cs : list (decl * contrib)) : list (str * str) :=
+  flat_map (fun dc => match snd dc with CTyp q _ => [(d_name (fst dc), q)] | _ => [] end) cs.
+Definition wraps_of (cs : list (decl * contrib)) : list (str * ywrap) :=
+  flat_map (fun dc => match snd dc with CTyp _ (Some (w, _)) => [(d_name (fst dc), w)] | _ => [] end) cs.
+Definition wrapped_of (cs : list (decl * contrib)) : list iface :=
+  flat_map (fun dc => match snd dc with CTyp _ (Some (_, it)) => [it] | _ => [] end) cs.
+
+Definition y_emit_fast (p : pkg) : yout :=
+  let cs := y_contribs p in
+  let R := mkRows (vals_of cs) (typs_of cs) (wrapped_of cs) in
+  mkYO (y_tags p) (y_symkey p) (y_imports_r p R) (r_vals R) (r_typs R) (wraps_of cs) (y_compiles_r p R).
 
 (* ------------------------------------------------------------------ *)
 (** * G — the contract *)
@@ -376,7 +401,7 @@ Definition denote_val (p : pkg) (d : decl) (e : yexpr) : gbind :=
       else if str_eqb q (pk_name p ++ n) then GSandbox n
       else GValue q
   | YAddr q => if str_eqb q (pk_name p ++ dot_s ++ n) then GAddr n else GValue q
-  | YLit (LString x) => GConst (CString x)
+  | YLit (LString q) => match parse_str q with Some x => GConst (CString x) | None => GValue [] end
   | YLit (LInt ds) => match parse_Z ds with Some z => GConst (CInt z) | None => GValue [] end
   | YLit (LFloat a b) => GConst (CFloat a b)
   | YLit LFail => GValue []
